@@ -20,7 +20,7 @@ from sympy.core.function import AppliedUndef
 
 from ..core import AnalysisError, Report
 from ..fx import Closure, Interp, Model, Opaque, RaisedInCode, UFunc, Unsupported, Vec, WholeArr
-from ..index import get_index
+from ..index import const_value, dotted, get_index
 from ..kernels import read_config_defaults, std_overrides
 
 T = sp.Symbol("t", real=True)
@@ -490,6 +490,151 @@ def check_expression_pde(rep: Report, ix):
             rep.violation("C10.rhs-call-order", f"{g.ref}.rhs_func::{impl}", f"compiled expression is called with {detail['call']} for signature {signature}; every variable, `t`, `none` and `bc_args` (with bc_args['t'] = t) must be passed at its own position")
 
 
+
+# ----------------------------------------------------------------------------
+# evolution_rate leaves its argument alone; expr_prod drops prefactors only when exact
+# ----------------------------------------------------------------------------
+INPLACE_METHODS = {"set_ghost_cells", "insert", "fill", "sort", "resize", "itemset", "put", "append", "extend"}
+
+
+def check_rate_purity(rep: Report, ix):
+    """`evolution_rate(state, t)` is evaluated repeatedly on one state object.  FieldCollection([...]) re-links the
+    field objects it is given to its own data array (copy_fields=False), and in-place operators change data: handing a
+    field that belongs to `state` (or `state` itself) to either silently detaches / changes the caller's state, so the
+    next evaluation works on stale data and interpreted, compiled and advertised rates drift apart.  Rule: every value
+    that reaches a FieldCollection constructor without copy_fields=True, or is the target of an in-place update, must be
+    fresh (result of a call such as .copy() / an operator / arithmetic), never `state` or a member of it."""
+    n = 0
+    for rel, clsname, kind, params, bcs in CLASSES:
+        f = ix.func(rel, f"{clsname}.evolution_rate")
+        rep.saw("functions", f.ref)
+        a = f.node.args.args
+        if len(a) < 2:
+            raise AnalysisError(f"{f.ref}: signature (self, state, t) expected")
+        P = a[1].arg
+        members: dict[str, str] = {P: "the state itself"}
+        fresh: set[str] = set()
+        order = [st for st in ast.walk(f.node) if isinstance(st, (ast.Assign, ast.AugAssign, ast.AnnAssign))]
+        order.sort(key=lambda st: (st.lineno, st.col_offset))
+
+        def is_member(e) -> str | None:
+            if isinstance(e, ast.Name) and e.id in members and e.id not in fresh:
+                return members[e.id]
+            if isinstance(e, ast.Subscript) and isinstance(e.value, ast.Name) and e.value.id == P:
+                return f"{P}[{ast.unparse(e.slice)}]"
+            if isinstance(e, ast.Attribute) and e.attr in ("data", "_data_full", "_data_valid", "fields"):
+                return is_member(e.value)
+            return None
+
+        for st in order:
+            if isinstance(st, ast.Assign) and len(st.targets) == 1:
+                t, v = st.targets[0], st.value
+                if isinstance(t, (ast.Tuple, ast.List)) and is_member(v):
+                    for k, el in enumerate(t.elts):
+                        if isinstance(el, ast.Name):
+                            members[el.id] = f"member {k} of `{P}`"
+                            fresh.discard(el.id)
+                elif isinstance(t, ast.Name):
+                    m = is_member(v)
+                    if m:
+                        members[t.id] = m
+                        fresh.discard(t.id)
+                    else:
+                        fresh.add(t.id) if t.id in members else None
+                elif isinstance(t, ast.Subscript) or isinstance(t, ast.Attribute):
+                    m = is_member(t.value if isinstance(t, ast.Subscript) else t.value)
+                    if m:
+                        n += 1
+                        rep.violation("C10.rate-modifies-state", f"{f.ref}::store", f"`{ast.unparse(st)[:80]}` writes into {m}: evaluating the rate changes the state it is evaluated on", line=st.lineno)
+            elif isinstance(st, ast.AugAssign):
+                m = is_member(st.target)
+                if m:
+                    rep.violation("C10.rate-modifies-state", f"{f.ref}::inplace", f"`{ast.unparse(st)[:80]}` updates {m} in place: evaluating the rate changes the state it is evaluated on", line=st.lineno)
+        for c in ast.walk(f.node):
+            if not isinstance(c, ast.Call):
+                continue
+            fn = dotted(c.func).split(".")[-1]
+            if fn == "FieldCollection":
+                n += 1
+                copies = any(k.arg == "copy_fields" and isinstance(k.value, ast.Constant) and k.value.value is True for k in c.keywords)
+                elems = []
+                if c.args:
+                    elems = list(c.args[0].elts) if isinstance(c.args[0], (ast.List, ast.Tuple)) else [c.args[0]]
+                bad = [(ast.unparse(e), is_member(e)) for e in elems if is_member(e)]
+                rep.oblige(f"{clsname}.evolution_rate: fields handed to FieldCollection are fresh", copies or not bad, [ast.unparse(e) for e in elems])
+                if bad and not copies:
+                    rep.violation(
+                        "C10.rate-modifies-state",
+                        f"{f.ref}::FieldCollection",
+                        f"`{ast.unparse(c)}`: {', '.join(f'`{src}` is {m}' for src, m in bad)}; FieldCollection re-links the fields it receives to its own data array, so after the first "
+                        "evaluation the caller's state no longer owns that field and every later evaluation (and the compiled rate) works on different data",
+                        line=c.lineno,
+                    )
+            elif isinstance(c.func, ast.Attribute) and c.func.attr in INPLACE_METHODS and is_member(c.func.value):
+                rep.violation("C10.rate-modifies-state", f"{f.ref}::{c.func.attr}", f"`{ast.unparse(c)[:80]}` changes {is_member(c.func.value)} in place", line=c.lineno)
+            elif any(k.arg == "out" and is_member(k.value) for k in c.keywords):
+                rep.violation("C10.rate-modifies-state", f"{f.ref}::out", f"`{ast.unparse(c)[:80]}` writes its result into a field of the state", line=c.lineno)
+    rep.floor("FieldCollection constructions / stores inspected in evolution_rate methods", n, 2)
+
+
+def check_expr_prod(rep: Report, ix):
+    """the advertised text drops or simplifies a prefactor only when that is exact: each special case of expr_prod must be
+    guarded by `factor == c` for a constant c and return the text of c*expression"""
+    f = ix.func("pde/pdes/base.py", "expr_prod")
+    rep.saw("functions", f.ref)
+    a = [x.arg for x in f.node.args.args]
+    if len(a) != 2:
+        raise AnalysisError(f"{f.ref}: signature (factor, expression) expected")
+    F, E = a
+    body = [st for st in f.node.body if not (isinstance(st, ast.Expr) and isinstance(st.value, ast.Constant))]
+    n = 0
+    for st in body:
+        if isinstance(st, ast.If):
+            if st.orelse or len(st.body) != 1 or not isinstance(st.body[0], ast.Return):
+                raise AnalysisError(f"{f.ref}: special cases are expected as `if <test>: return <text>`")
+            n += 1
+            t = st.test
+            exact = isinstance(t, ast.Compare) and len(t.ops) == 1 and isinstance(t.ops[0], ast.Eq) and isinstance(t.left, ast.Name) and t.left.id == F and isinstance(const_value(t.comparators[0]), (int, float))
+            if not exact:
+                rep.oblige(f"expr_prod: special case `{ast.unparse(t)}` is an exact comparison", False)
+                rep.violation(
+                    "C10.expression-text",
+                    f"{f.ref}::special-case::{ast.unparse(st.body[0].value)}",
+                    f"expr_prod returns `{ast.unparse(st.body[0].value)}` under `{ast.unparse(t)}`, which does not fix the value of `{F}`: prefactors that merely satisfy the test "
+                    "(e.g. a diffusivity of 2.5e-9 under a tolerant comparison with 0) are dropped from or altered in the advertised expression, which then differs from the implemented rate",
+                    line=st.lineno,
+                )
+                continue
+            c = const_value(t.comparators[0])
+            r = st.body[0].value
+            if isinstance(r, ast.Constant) and isinstance(r.value, str):
+                text = r.value
+            elif isinstance(r, ast.Name) and r.id == E:
+                text = "EXPR"
+            elif isinstance(r, ast.BinOp) and isinstance(r.op, ast.Add) and isinstance(r.left, ast.Constant) and isinstance(r.right, ast.Name) and r.right.id == E:
+                text = str(r.left.value) + "EXPR"
+            else:
+                raise AnalysisError(f"{f.ref}: returned text `{ast.unparse(r)}` is outside the grammar of the rule")
+            X = sp.Symbol("EXPR")
+            try:
+                val = sp.sympify(text, locals={"EXPR": X})
+            except Exception as e:  # noqa: BLE001
+                raise AnalysisError(f"{f.ref}: cannot read `{text}`: {e}") from e
+            ok = sp.simplify(val - c * X) == 0
+            rep.oblige(f"expr_prod: factor == {c} -> `{text}` equals {c}*expression", ok, text)
+            if not ok:
+                rep.violation("C10.expression-text", f"{f.ref}::special-case::{c}", f"expr_prod returns `{text}` for factor == {c}, which is not {c}*expression", line=st.lineno)
+        elif isinstance(st, ast.Return):
+            r = st.value
+            ok = isinstance(r, ast.JoinedStr) and [type(v).__name__ for v in r.values] == ["FormattedValue", "Constant", "FormattedValue"] and ast.unparse(r.values[0].value) == F and ast.unparse(r.values[2].value) == E and r.values[1].value.strip() == "*"
+            rep.oblige("expr_prod: general case prints `factor * expression`", ok, ast.unparse(r))
+            if not ok:
+                rep.violation("C10.expression-text", f"{f.ref}::general-case", f"expr_prod's general case returns `{ast.unparse(r)}`, expected the product text of factor and expression", line=st.lineno)
+        else:
+            raise AnalysisError(f"{f.ref}: statement `{type(st).__name__}` is outside the grammar of the rule")
+    rep.floor("special cases of expr_prod", n, 3)
+
+
 def check(tier: str) -> Report:
     rep = Report("C10", tier, "proof", "abstract interpretation of evolution_rate / make_evolution_rate into an affine-operator term language; normal-form identity; grammar-based parsing of the advertised expression text")
     rep.explanation = (
@@ -534,9 +679,11 @@ def check(tier: str) -> Report:
         rep.sample({"class": clsname, "interpreted": [str(x) for x in r["interpreted"]], "text": [str(x) for x in r["text"]]})
     rep.floor("predefined equation classes analysed", len(rep.analysed.get("equation classes", [])), 8)
     check_expression_pde(rep, ix)
+    check_rate_purity(rep, ix)
+    check_expr_prod(rep, ix)
     rep.assumptions += [
         "operators with boundary conditions are affine maps; Lin depends on (operator, bc), the inhomogeneity on (operator, bc, t)",
-        "parameters are generic (not 0, +-1): expr_prod prints `factor * expr`",
+        "parameters are generic (not 0, +-1) in the class-by-class comparison; the special cases of expr_prod are decided separately (exact guards, exact texts); `{factor:g}` keeps six significant digits",
         "arbitrary user expressions of the generic PDE class are not decided here (C11 narrow clause); only the bc lookup order and the passing of t",
         "round-off differences between backends are not decided",
     ]
